@@ -1,0 +1,25 @@
+//go:build verif
+// +build verif
+
+// Verification hook (property C13): the share-piece sender over a supplied network, and the
+// package's own decoder of share-piece messages. Add-only; compiled only with -tags verif.
+package net
+
+import (
+	"com.tuntun.rangers/node/src/consensus/model"
+	"com.tuntun.rangers/node/src/middleware/log"
+	"com.tuntun.rangers/node/src/network"
+)
+
+// VerifC13NewSender returns the node's NetworkServerImpl sending through n.
+func VerifC13NewSender(n network.Network) *NetworkServerImpl {
+	if logger == nil {
+		logger = log.GetLoggerByIndex(log.StateMachineLogConfig, "0")
+	}
+	return &NetworkServerImpl{net: n}
+}
+
+// VerifC13DecodeSharePiece is unMarshalConsensusSharePieceMessage.
+func VerifC13DecodeSharePiece(b []byte) (*model.SharePieceMessage, error) {
+	return unMarshalConsensusSharePieceMessage(b)
+}
